@@ -467,6 +467,35 @@ def run_same_basename(ctx):
     return n
 
 
+def run_failing_position(ctx):
+    """2..3 data files of which exactly one is non-compliant - first, in the middle, last - and one that is skipped: every mode exits 19;
+    all compliant: 0"""
+    rules = 'rule sized when size exists {\n  size <= 10 <<too big>>\n}\n'
+    docs = {'P': '{"size": 1}', 'F': '{"size": 50}', 'S': '{"other": 1}'}
+    d = os.path.join(ctx.wd, 'fpos')
+    jobs, meta = [], []
+    for seq in ('FP', 'PF', 'FS', 'SF', 'FPP', 'PFP', 'PPF', 'FSP', 'PP', 'PS', 'FF'):
+        dd = os.path.join(d, seq)
+        files = {'r.guard': rules}
+        for i, c in enumerate(seq):
+            files['data/d%d.json' % i] = docs[c]
+        e2e.write_files(dd, files)
+        want = 19 if 'F' in seq else 0
+        for mlab, flags in (('plain', []), ('verbose', ['-v']), ('s-json', ['--structured', '-o', 'json', '-S', 'none']), ('s-yaml', ['--structured', '-o', 'yaml', '-S', 'none']),
+                            ('s-sarif', ['--structured', '-o', 'sarif', '-S', 'none']), ('s-junit', ['--structured', '-o', 'junit', '-S', 'none'])):
+            for how, dargs in (('directory', ['-d', 'data']), ('one by one', sum((['-d', 'data/d%d.json' % i] for i in range(len(seq))), []))):
+                jobs.append({'args': ['validate', '-r', 'r.guard'] + dargs + flags, 'cwd': dd}); meta.append((seq, mlab, how, want))
+    n = 0
+    for (seq, mlab, how, want), (code, so, se) in zip(meta, e2e.run_many(jobs)):
+        n += 1
+        if code != want:
+            ctx.failing('data files with outcomes %s (%s, given as %s): exit %s, expected %d' % (seq, mlab, how, code, want),
+                        {'class': 'failing-position', 'outcomes': seq, 'mode': mlab, 'how': how, 'stdout': so[:400].decode('utf-8', 'replace'), 'stderr': se[-300:].decode('utf-8', 'replace')}, found=True)
+    ctx.coverage['failing_position_runs'] = n
+    ctx.coverage['evaluations'] += n
+    return n
+
+
 def run_path_spellings(ctx):
     """the same rules, spec and data files addressed in different ways - by name, as `.` from inside the directory, `./`, through `..`,
     with a trailing slash, by absolute path, file by file, and in directories / files whose names start with a dot: the exit code of
@@ -535,7 +564,7 @@ def run(ctx):
     n1 = run_validate(ctx, 260 if thorough else 50, thorough)
     n2 = run_test_cmd(ctx, 200 if thorough else 40) + run_linked_documents(ctx)
     from .c16 import run_default_rule, run_multi_files
-    n2 += run_path_spellings(ctx)
+    n2 += run_path_spellings(ctx) + run_failing_position(ctx)
     n2 += run_same_basename(ctx) + run_multi_files(ctx)     # several spec files / rules files in one `test` run: 7 iff an expectation is unmet, in every order
     n2 += run_default_rule(ctx)     # file-level clauses: the default rule's expectation decides the exit code in every rendering
     ctx.coverage['distinct_nontrivial'] = n1 + n2
